@@ -416,6 +416,33 @@ pub fn run(run: &Run) {
 
 pub fn replay(_run: &Run, case: &Value) -> Result<(), Failure> {
     let bits = case["option_bits"].as_u64().unwrap_or(0) as u32;
+    if let Some(l) = case.get("lone_waiting_sign_then_end") {
+        let inv = layout_inverse(Layout::Synthetic);
+        let sk = inv.get(l["sign"].as_str().unwrap_or_default()).copied().unwrap_or((0, 0));
+        let ka = inv.get("\u{0995}").copied().unwrap_or((0, 0));
+        let end = l["ending"].as_u64().unwrap_or(0);
+        let sb = Sandbox::new();
+        let pair = mk_pair(bits, &sb)?;
+        let c = || case.clone();
+        let pf = |p: crate::driver::PanicInfo| Failure::new(panic_kind(&p), p.to_string(), case.clone());
+        type_keys(&pair.on, &[sk], &c)?;
+        match end {
+            0 => pair.on.finish().map_err(pf)?,
+            1 => {
+                pair.on.backspace(true).map_err(pf)?;
+            }
+            _ => {
+                pair.on.backspace(false).map_err(pf)?;
+            }
+        }
+        let ongoing = pair.on.ongoing();
+        let t = type_keys(&pair.on, &[ka], &c)?;
+        let want = type_keys(&pair.off, &[ka], &c)?;
+        if ongoing || t != want {
+            return Err(Failure::new("pending-sign-survives-the-end-of-the-word", format!("ongoing={ongoing}, next consonant {t:?}, expected {want:?}"), case.clone()));
+        }
+        return Ok(());
+    }
     if let Some(w) = case["vowel_via_hasanta"].as_array() {
         let inv = layout_inverse(Layout::Synthetic);
         let g = |i: usize| -> K { inv.get(w[i].as_str().unwrap_or_default()).copied().unwrap_or((0, 0)) };
